@@ -695,3 +695,6 @@ def run(ck):
     from .common import reevaluate
     reevaluate(ck, 'C08.j', 'c09', lambda r, k: r == 'C09.a',
                'an own frame that fits the receive block exactly is stored completely and not reported as an overflow')
+    ck.rule('C08.k', 'what the emitters hand to the transport reaches the wire: frames leave through sink_put_chunk (escape pairs, prefix, header, payload chunks), which offers every octet until it is taken, each once and in order, whatever count the driver answers (C17.a-d re-evaluated)')
+    reevaluate(ck, 'C08.k', 'c17', lambda r, k: r in ('C17.a', 'C17.b', 'C17.c', 'C17.d') and k.startswith(('sink_put_chunk', 'sink_adapt')),
+               'emitted frames are written with the exact put call: a short transfer continues behind the octets already taken')
